@@ -75,18 +75,21 @@ var errRead = errors.New("simulated read error")
 var errWrite = errors.New("simulated write error")
 
 type simReader struct {
-	data     []byte
-	pos      int
-	pol      int
-	r        *sim.Rng
-	failAt   int  // -1: never; otherwise a read error once failAt bytes have been delivered
-	failData bool // deliver the last bytes together with the error
-	zeros    int
-	calls    int
-	first    bool
-	stats    map[string]int
-	nest     func() // called from inside one Read: the peer itself uses the package meanwhile
-	nestAt   int
+	data      []byte
+	pos       int
+	pol       int
+	r         *sim.Rng
+	failAt    int  // -1: never; otherwise a read error once failAt bytes have been delivered
+	failData  bool // deliver the last bytes together with the error
+	zeros     int
+	calls     int
+	first     bool
+	stats     map[string]int
+	burstInit bool
+	burstAt   int
+	burstLeft int
+	nest      func() // called from inside one Read: the peer itself uses the package meanwhile
+	nestAt    int
 }
 
 func (s *simReader) Read(p []byte) (int, error) {
@@ -123,6 +126,31 @@ func (s *simReader) Read(p []byte) (int, error) {
 			return 0, nil
 		}
 		n = 1 + s.r.N(24)
+	case 12: // a source that stalls: one long run of consecutive (0, nil) reads at one position
+		if !s.burstInit {
+			s.burstInit = true
+			s.burstLeft = []int{99, 100, 101, 150, 300}[s.r.N(5)]
+			switch s.r.N(3) {
+			case 0:
+				s.burstAt = 0
+			case 1:
+				s.burstAt = s.r.N(17) // inside (or right after) a 16-byte header
+			default:
+				s.burstAt = s.r.N(len(s.data) + 1)
+			}
+		}
+		if s.pos >= s.burstAt && s.burstLeft > 0 {
+			s.burstLeft--
+			s.stats["zero_length_read"]++
+			if s.burstLeft == 0 {
+				s.stats["run_of_99+_consecutive_zero_length_reads"]++
+			}
+			return 0, nil
+		}
+		n = 1 + s.r.N(24)
+		if s.burstLeft > 0 && s.pos+n > s.burstAt {
+			n = s.burstAt - s.pos
+		}
 	case 10, 11: // a hesitant source: a (0, nil) read before every small piece of data, hundreds in all
 		if s.zeros < 600 && s.calls%2 == 1 {
 			s.zeros++
@@ -235,8 +263,8 @@ func gen(r *sim.Rng, tier string) *sim.Case {
 	p["variant"] = r.N(8) // bit0: plaintext as string, bit1: secret as string, bit2: aad as string
 	p["emode"] = r.Pick(6, 1, 1)
 	p["echunk"] = []int{0, 0, 1, 3, 7}[r.N(5)]
-	p["rpol"] = r.N(12)
-	p["rpol2"] = r.N(12)
+	p["rpol"] = r.N(13)
+	p["rpol2"] = r.N(13)
 	p["rfail"] = -1
 	p["wfail"] = -1
 	switch p["scen"] {
